@@ -22,6 +22,7 @@ NUMARR_FIELDS = ('xs', 'ranges')
 BOOLARR_FIELDS = ('bs',)
 MSG_FIELDS = {'m': {'x': 'num', 'ok': 'bool'}}
 ALIASES = ('A', 'Msg_1')
+WORDY_NAMES = ('min', 'max', 'len', 'log', 'sum', 'abs', 'int', 'sqrt')
 
 NUM_LITS = ('0', '1', '2', '3', '0.5', '1.5', '4', '10', '1.0', '2.0', '255', '360', '1000', '0.1', '3.14159', '1e3', '2147483648',
             '0.2', '0.7', '1.1', '0.9')
@@ -168,6 +169,8 @@ class ExprGen:
         self.force_quantifier = None
         self.pool = {'bool': [], 'num': []}  # previously generated subterms (for duplication)
         self.vcount = 0
+        # names a user would pick that happen to be words of the language (built-in functions)
+        self.wordy = sim.coin('wordyvars', 0.08)
 
     # -- leaves ---------------------------------------------------------------
 
@@ -539,6 +542,11 @@ class ExprGen:
         # names are drawn from a small pool, so siblings may share a name and a FREE variable of that
         # name may occur elsewhere in the term (spelling coincidences are part of the language)
         v = 'v%d' % (self.vcount if self.unique_vars else 1 + s.choose('qvname', 3))
+        if self.wordy:
+            taken = {n for n, _t in self.qvars}
+            free = [w for w in WORDY_NAMES if w not in taken]
+            if free:
+                v = s.pick('wordyvar', free)
         dom = dom if dom is not None else self.num_compound(d + 1)
         q = self.force_quantifier or s.pick('quantifier', ('forall', 'exists'))
         self.qvars.append((v, 'num'))
@@ -930,6 +938,7 @@ class PropGen:
         self.with_meta = with_meta
         self.allow_consts = allow_consts
         self.acount = 0
+        self.wordy = sim.coin('wordyaliases', 0.12)
 
     def predicate(self, visible):
         s = self.sim
@@ -955,6 +964,12 @@ class PropGen:
         if may_alias and s.coin('alias?', 0.4):
             self.acount += 1
             alias = 'M%d' % self.acount
+            if self.wordy and self.acount <= len(WORDY_NAMES):
+                # `after /rosout as log {...}`: an alias spelled like a built-in function
+                alias = WORDY_NAMES[(self.acount - 1 + s.choose('wordyalias', len(WORDY_NAMES))) % len(WORDY_NAMES)]
+                while alias in getattr(self, '_used_aliases', ()):
+                    alias = WORDY_NAMES[(WORDY_NAMES.index(alias) + 1) % len(WORDY_NAMES)]
+                self._used_aliases = getattr(self, '_used_aliases', ()) + (alias,)
         pred = self.predicate(visible)
         if alias and s.coin('ownalias', 0.3):
             # an event may refer to its own alias (it is rewritten to the message itself)
